@@ -458,3 +458,86 @@ example : Clean { path := "dir/p.json".toList, part := some "a".toList, ns := so
   · intro n hn; cases hn; intro x hx; cases hx; decide
 
 end TCV.C13NM
+
+/-! ## member chains are filed under pairwise different names -/
+
+namespace TCV.C13NM
+open TCV TCV.Config TCV.Build TCV.BuildNM
+
+/-- the names under which the members of `mains` are filed -/
+def MemberNames (fs : FS) : List (Str × Option CtxSrc) → List Str → Prop
+  | [], ns => ns = []
+  | m :: rest, ns => ∃ n ns', ns = n :: ns' ∧ mainName fs m.1 = .ok n ∧ MemberNames fs rest ns'
+
+/-- **a MultiChain that is built files its members under pairwise different names** (parameter mode): `buildMultiAux` succeeds only if no
+member's config name is among the names seen before — so `mc[name]` is never a chain that silently replaced another -/
+theorem multi_names_distinct (H : Str → Str) (pr : Char → Bool) (fs : FS) (cfs : CtxFS) (classes : Classes) (fuel : Nat) :
+    ∀ (mains : List (Str × Option CtxSrc)) (seen : List Str) (reg : Build.Registry) (next : Nat) (cs : List Build.Chain),
+      Build.buildMultiAux H pr fs cfs classes fuel mains seen reg next = .ok cs →
+      ∃ names, MemberNames fs mains names ∧ names.Nodup ∧ ∀ n ∈ names, n ∉ seen
+  | [], seen, reg, next, cs, h => ⟨[], rfl, List.nodup_nil, by simp⟩
+  | m :: rest, seen, reg, next, cs, h => by
+    simp only [Build.buildMultiAux] at h
+    cases hn : mainName fs m.1 with
+    | error e => rw [hn] at h; cases h
+    | ok nm =>
+    rw [hn] at h
+    simp only at h
+    split at h
+    · cases h
+    next hseen =>
+    cases hb : Build.build H pr fs cfs classes m.1 none m.2 reg next fuel with
+    | error e => rw [hb] at h; cases h
+    | ok c =>
+      rw [hb] at h
+      simp only at h
+      cases hr : Build.buildMultiAux H pr fs cfs classes fuel rest (nm :: seen) c.reg c.next with
+      | error e => rw [hr] at h; cases h
+      | ok cs' =>
+        obtain ⟨names, hmn, hnd, hns⟩ := multi_names_distinct H pr fs cfs classes fuel rest (nm :: seen) c.reg c.next cs' hr
+        have hnm : nm ∉ seen := by
+          intro hin; exact hseen (List.contains_iff_mem.mpr hin)
+        refine ⟨nm :: names, ⟨nm, names, rfl, hn, hmn⟩, ?_, ?_⟩
+        · refine List.nodup_cons.mpr ⟨?_, hnd⟩
+          intro hin; exact hns nm hin (List.mem_cons_self ..)
+        · intro n hn'
+          rcases List.mem_cons.mp hn' with rfl | h1
+          · exact hnm
+          · intro hin; exact hns n h1 (List.mem_cons_of_mem _ hin)
+
+/-- the same in name mode -/
+theorem nm_multi_names_distinct (fs : FS) (cfs : CtxFS) (classes : Classes) (fuel : Nat) :
+    ∀ (mains : List (Str × Option CtxSrc)) (seen : List Str) (reg : BuildNM.Registry) (next cfgBase : Nat) (cs : List BuildNM.Chain),
+      BuildNM.buildMultiAux fs cfs classes fuel mains seen reg next cfgBase = .ok cs →
+      ∃ names, MemberNames fs mains names ∧ names.Nodup ∧ ∀ n ∈ names, n ∉ seen
+  | [], seen, reg, next, cfgBase, cs, h => ⟨[], rfl, List.nodup_nil, by simp⟩
+  | m :: rest, seen, reg, next, cfgBase, cs, h => by
+    simp only [BuildNM.buildMultiAux] at h
+    cases hn : mainName fs m.1 with
+    | error e => rw [hn] at h; cases h
+    | ok nm =>
+    rw [hn] at h
+    simp only at h
+    split at h
+    · cases h
+    next hseen =>
+    cases hb : BuildNM.build fs cfs classes m.1 none m.2 reg next cfgBase fuel with
+    | error e => rw [hb] at h; cases h
+    | ok c =>
+      rw [hb] at h
+      simp only at h
+      cases hr : BuildNM.buildMultiAux fs cfs classes fuel rest (nm :: seen) c.reg c.next c.nextCfg with
+      | error e => rw [hr] at h; cases h
+      | ok cs' =>
+        obtain ⟨names, hmn, hnd, hns⟩ := nm_multi_names_distinct fs cfs classes fuel rest (nm :: seen) c.reg c.next c.nextCfg cs' hr
+        have hnm : nm ∉ seen := by
+          intro hin; exact hseen (List.contains_iff_mem.mpr hin)
+        refine ⟨nm :: names, ⟨nm, names, rfl, hn, hmn⟩, ?_, ?_⟩
+        · refine List.nodup_cons.mpr ⟨?_, hnd⟩
+          intro hin; exact hns nm hin (List.mem_cons_self ..)
+        · intro n hn'
+          rcases List.mem_cons.mp hn' with rfl | h1
+          · exact hnm
+          · intro hin; exact hns n h1 (List.mem_cons_of_mem _ hin)
+
+end TCV.C13NM
